@@ -128,6 +128,29 @@ Theorem C05_min_gen_set_option_is_sound :
 Proof. exact min_gen_set_option_is_sound. Qed.
 Print Assumptions C05_min_gen_set_option_is_sound.
 
+(* the same for MinFlowDecompCycles (max_multiplicity = mg_mult I; the seeded change C04-selfloop-mingenset-bound, which forced
+   multiplicity 1 on self-loop graphs, falsifies exactly the hypothesis `mult P i e <= mg_mult I`) *)
+From FP Require Import LowerBoundsMgsW.
+Theorem C05_min_gen_set_option_is_sound_for_walks :
+  forall (J : kfdc_inst) (P : N -> list node) (wt : N -> Q)
+         (I : mgs_inst) (status : nat -> mstatus) (lb n : nat) (extra : Z) (tried : list nat) (m : nat),
+  let G := c_graph J in let E := g_edges G in let s := g_src G in let t := g_snk G in
+  walk_decomposition J P wt -> wf_graph G ->
+  (forall u x, In (s, u) E -> In (x, u) E -> x = s) ->
+  (forall e, In e E -> mem_edge e (kfdc_ignore J) = true -> fst e = s \/ snd e = t) ->
+  (forall u, In (s, u) E -> mem_edge (s, u) (kfdc_ignore J) = true) ->
+  mg_parts I = None -> (1 <= mg_mult I)%nat -> mg_int I = c_int J ->
+  (forall i e, In i (layers (c_k J)) -> In e (kept_edges J) -> (mult P i e <= Z.of_nat (mg_mult I))%Z) ->
+  (forall a, In a (mg_numbers I) -> exists e, In e (kept_edges J) /\ (a == WalkEncRows.flow_of J e)%Q) ->
+  (mg_total I == sumq (WalkEncRows.flow_of J) (src_cut G (kfdc_ignore J)))%Q ->
+  (forall k, status k = MgOptimal -> exists a, sat a (encode_mgs I k)) ->
+  (forall k, status k = MgInfeasible -> forall a, ~ sat a (encode_mgs I k)) ->
+  mgsm_loop status lb n extra = (tried, Some m) ->
+  (lb <= c_k J)%nat ->
+  (m <= c_k J)%nat.
+Proof. exact min_gen_set_option_is_sound_walks. Qed.
+Print Assumptions C05_min_gen_set_option_is_sound_for_walks.
+
 (* non-vacuity: s -> a, a -> b (2), a -> c (3), b -> t, c -> t with two paths of weights 2 and 3 meets every premise; the source
    cut is {(a,b),(a,c)}, the source flow 5 and the theorem yields a generating multiset of at most 2 elements for {2,3} *)
 Example C05_lower_bounds_nonvacuous :
